@@ -403,7 +403,11 @@ fn check_faces(
 
 // ------------------------------------------------------------------------------------------------
 
+#[global_allocator]
+static ALLOC: vcore::alloc::Budget = vcore::alloc::Budget;
+
 fn main() {
+    vcore::alloc::init();
     let mut id = String::new();
     let mut tier = std::env::var("VERIF_TIER").unwrap_or_else(|_| "quick".into());
     let mut seed: u64 = std::env::var("VERIF_SEED").ok().and_then(|s| s.parse().ok()).unwrap_or(1);
